@@ -1,6 +1,7 @@
 import P2sh.Core.Prog
 import P2sh.Core.Encode
 import P2sh.Core.Fn.Prog
+import P2sh.Core.Fn.Encode
 /-!
 # C02 — compiled programs behave as the reference semantics prescribe (core fragment)
 
@@ -40,9 +41,17 @@ byte (main code, every function's code — nested ones included —, line tables
 `num_params`, the operands of `Closure` and the loads before it) and run for run with the real
 compiler and VM by the `core` op.  What a closure captures and keeps: `Props/C04Closure.lean`.
 
-Open (stated in DESIGN §6): the same for arrays, maps, index expressions — covered by the
-three-way differential run (real pipeline / Lean VM model on the real bytecode / Lean reference
-semantics).
+(Outside these fragments — packet properties, filters, I/O builtins, `format`, mutation of an array that is a map key,
+cyclic containers — the three-way differential run: real pipeline / Lean VM model on the real bytecode / Lean reference semantics.)
+
+**Arrays, maps, indexing, builtins** (namespace `Containers`, also over `P2sh.Core.Fn`): array and map
+literals, `c[i]`, `c[i] = e`, calls of the pure builtins by name.  Containers are SHARED OBJECTS on a
+heap (`Sto.a` / `FSt.a`): `index_assignment_aliases` (+ `_machine`), `array_literal_fresh`,
+`array_literal_twice`, `hext_all` (the heap stays well-formed along every evaluation),
+`map_literal_last_pair_wins`, `index_errors` (+ `_eval`, `_machine`), `builtin_call_correct`
+(and `builtin_call_documented` / `compiled_builtin_call_documented` in `Props/C02Builtins.lean`, with
+the C11 contract table).  Tied by the same `core` op (generators `core_heap_program`,
+`core_builtin_program` in tools/props/c02.py).
 -/
 namespace P2sh.Props.C02
 open P2sh P2sh.Core
@@ -107,12 +116,12 @@ reproduced by the compiled program: main code `compileT`, pool `constsT` (every 
 constant after the constants of its body), the code of every function constant `codeT`
 (positions from 0).  From the empty stack and no frame to the empty stack and no frame, with
 the globals of the reference evaluation. -/
-theorem compile_sound_functions (fuel : Nat) (T : List FTop) (g g' : List Val) (h h' : List (List Val))
-    (he : evalT (phiT T) fuel g h T = some (g', h')) :
+theorem compile_sound_functions (fuel : Nat) (T : List FTop) (g g' : List Val) (h h' : List (List Val)) (a a' : Heap)
+    (he : evalT (phiT T) fuel g h a T = some (g', h', a')) :
     FSteps (constsT T) (codeT T)
-      ⟨⟨compileT 0 0 T, ⟨[], [], 0, 0, 0⟩, 0, 0, 0⟩, [], g, h, []⟩
-      ⟨⟨compileT 0 0 T, ⟨[], [], 0, 0, 0⟩, 0, bytes (compileT 0 0 T), 0⟩, [], g', h', []⟩ :=
-  program_correct_fn fuel T g g' h h' he
+      ⟨⟨compileT 0 0 T, ⟨[], [], 0, 0, 0⟩, 0, 0, 0⟩, [], g, h, a, []⟩
+      ⟨⟨compileT 0 0 T, ⟨[], [], 0, 0, 0⟩, 0, bytes (compileT 0 0 T), 0⟩, [], g', h', a', []⟩ :=
+  program_correct_fn fuel T g g' h h' a a' he
 
 open P2sh.Core.Fn in
 /-- an expression with calls inside — anywhere in the code of a running function or of the top
@@ -146,7 +155,7 @@ def factProg (n : Int64) : List FTop :=
   [.fnDef 1 0 [] [] factD, .stmt (.letG 2 1 (.call 2 (.gget 2 0) (argsOf [.lit 2 (.int n)])))]
 
 /-- non-vacuity: `fact(5)` is `120` in the reference evaluation … -/
-example : evalT (phiT (factProg 5)) 40 [.null, .null] [[]] (factProg 5) = some ([.clos (mkFd [] [] factD) [] 1, .int 120], [[], []]) := by rfl
+example : evalT (phiT (factProg 5)) 40 [.null, .null] [[]] {} (factProg 5) = some ([.clos (mkFd [] [] factD) [] 1, .int 120], [[], []], {}) := by rfl
 
 /-- … the body's code: the last `Pop` has become `ReturnValue` (the implicit return) … -/
 example : compileFn 0 factD =
@@ -154,9 +163,9 @@ example : compileFn 0 factD =
      .getLocal 0, .currClosure, .getLocal 0, .const 2, .op .sub, .call 1, .op .mul, .retv] := by rfl
 
 /-- … and the machine, run on the compiled program, ends with the same globals, the empty stack, no frame -/
-example : frun (constsT (factProg 3)) (codeT (factProg 3)) 200 ⟨⟨compileT 0 0 (factProg 3), ⟨[], [], 0, 0, 0⟩, 0, 0, 0⟩, [], [.null, .null], [[]], []⟩
+example : frun (constsT (factProg 3)) (codeT (factProg 3)) 200 ⟨⟨compileT 0 0 (factProg 3), ⟨[], [], 0, 0, 0⟩, 0, 0, 0⟩, [], [.null, .null], [[]], {}, []⟩
     = .done ⟨⟨compileT 0 0 (factProg 3), ⟨[], [], 0, 0, 0⟩, 0, bytes (compileT 0 0 (factProg 3)), 0⟩, [],
-             [.clos (mkFd [] [] factD) [] 1, .int 6], [[], []], []⟩ := by rfl
+             [.clos (mkFd [] [] factD) [] 1, .int 6], [[], []], {}, []⟩ := by rfl
 
 /-- `let odd = null; fn even(n) { if n == 0 { true } else { odd(n - 1) } }
 odd = fn(n) { if n == 0 { false } else { even(n - 1) } };` — mutual recursion through globals -/
@@ -168,10 +177,10 @@ def evenOddProg (n : Int64) : List FTop :=
   [.stmt (.letG 1 0 (.null 1)), .fnDef 2 1 [0] [] evenD, .fnSet 3 3 0 [1] [] oddD,
    .stmt (.letG 4 2 (.call 4 (.gget 4 1) (argsOf [.lit 4 (.int n)])))]
 
-example : evalT (phiT (evenOddProg 4)) 60 [.null, .null, .null] [[]] (evenOddProg 4)
-    = some ([.clos (mkFd [1] [] oddD) [] 2, .clos (mkFd [0] [] evenD) [] 1, .bool true], [[], [], []]) := by rfl
-example : evalT (phiT (evenOddProg 3)) 60 [.null, .null, .null] [[]] (evenOddProg 3)
-    = some ([.clos (mkFd [1] [] oddD) [] 2, .clos (mkFd [0] [] evenD) [] 1, .bool false], [[], [], []]) := by rfl
+example : evalT (phiT (evenOddProg 4)) 60 [.null, .null, .null] [[]] {} (evenOddProg 4)
+    = some ([.clos (mkFd [1] [] oddD) [] 2, .clos (mkFd [0] [] evenD) [] 1, .bool true], [[], [], []], {}) := by rfl
+example : evalT (phiT (evenOddProg 3)) 60 [.null, .null, .null] [[]] {} (evenOddProg 3)
+    = some ([.clos (mkFd [1] [] oddD) [] 2, .clos (mkFd [0] [] evenD) [] 1, .bool false], [[], [], []], {}) := by rfl
 
 /-- `fn root(n) { let i = 0; while true { loop { if i * i > n { return i; } i = i + 1; } } }` — an
 early `return` from inside two nested loops; parameter = slot 0, the local `i` = slot 1 -/
@@ -185,23 +194,724 @@ def rootProg (n : Int64) : List FTop :=
   [.fnDef 1 0 [] [] rootD, .stmt (.letG 8 1 (.bin 8 .add (.lit 8 (.int 100)) (.call 8 (.gget 8 0) (argsOf [.lit 8 (.int n)]))))]
 
 /-- the call inside `100 + root(10)` returns from the two loops with the pending operand `100` intact -/
-example : evalT (phiT (rootProg 10)) 60 [.null, .null] [[]] (rootProg 10) = some ([.clos (mkFd [] [] rootD) [] 1, .int 104], [[], []]) := by rfl
+example : evalT (phiT (rootProg 10)) 60 [.null, .null] [[]] {} (rootProg 10) = some ([.clos (mkFd [] [] rootD) [] 1, .int 104], [[], []], {}) := by rfl
 
-example : frun (constsT (rootProg 3)) (codeT (rootProg 3)) 300 ⟨⟨compileT 0 0 (rootProg 3), ⟨[], [], 0, 0, 0⟩, 0, 0, 0⟩, [], [.null, .null], [[]], []⟩
+example : frun (constsT (rootProg 3)) (codeT (rootProg 3)) 300 ⟨⟨compileT 0 0 (rootProg 3), ⟨[], [], 0, 0, 0⟩, 0, 0, 0⟩, [], [.null, .null], [[]], {}, []⟩
     = .done ⟨⟨compileT 0 0 (rootProg 3), ⟨[], [], 0, 0, 0⟩, 0, bytes (compileT 0 0 (rootProg 3)), 0⟩, [],
-             [.clos (mkFd [] [] rootD) [] 1, .int 102], [[], []], []⟩ := by rfl
+             [.clos (mkFd [] [] rootD) [] 1, .int 102], [[], []], {}, []⟩ := by rfl
 
 /-- `fn fact(n) {…}  let r = fact(5, 6);` — the wrong number of arguments is a runtime error: the
 reference evaluation fails, and so does the machine (at the `Call`, with both arguments pushed) -/
 def arityProg : List FTop :=
   [.fnDef 1 0 [] [] factD, .stmt (.letG 2 1 (.call 2 (.gget 2 0) (argsOf [.lit 2 (.int 5), .lit 2 (.int 6)])))]
 
-example : evalT (phiT arityProg) 40 [.null, .null] [[]] arityProg = none := by rfl
+example : evalT (phiT arityProg) 40 [.null, .null] [[]] {} arityProg = none := by rfl
 
-example : (match frun (constsT arityProg) (codeT arityProg) 200 ⟨⟨compileT 0 0 arityProg, ⟨[], [], 0, 0, 0⟩, 0, 0, 0⟩, [], [.null, .null], [[]], []⟩ with
+example : (match frun (constsT arityProg) (codeT arityProg) 200 ⟨⟨compileT 0 0 arityProg, ⟨[], [], 0, 0, 0⟩, 0, 0, 0⟩, [], [.null, .null], [[]], {}, []⟩ with
     | .stuck st => st.act.pc == 16 && st.stk.length == 3 && st.callers.isEmpty
     | _ => false) = true := by rfl
 
 end FnExamples
 
+/-! ## arrays and maps: shared objects -/
+
+namespace Containers
+open P2sh.Core.Fn
+
+/-- every object's id is below the allocation counter (holds of the empty heap, kept by every allocation and update) -/
+def WF (a : Heap) : Prop := ∀ p ∈ a.objs, p.1 < a.next
+
+theorem wf_empty : WF {} := by intro p hp; simp at hp
+
+theorem find_map_set (id : Nat) (o : HObj) : ∀ (objs : List (Nat × HObj)) (j : Nat),
+    (objs.map (fun p => if p.1 == id then (id, o) else p)).find? (fun p => p.1 == j) =
+      if j = id then (objs.find? (fun p => p.1 == id)).map (fun _ => (id, o)) else objs.find? (fun p => p.1 == j)
+  | [], j => by simp
+  | p :: rest, j => by
+    have ih := find_map_set id o rest j
+    simp only [List.map_cons]
+    by_cases hp : p.1 = id
+    · have e1 : (if (p.1 == id) = true then (id, o) else p) = (id, o) := by simp [hp]
+      rw [e1]
+      by_cases hj : j = id
+      · subst hj
+        rw [List.find?_cons_of_pos (by simp), List.find?_cons_of_pos (by simp [hp])]
+        simp
+      · rw [List.find?_cons_of_neg (by simp; omega), ih]
+        simp only [hj, if_false]
+        rw [List.find?_cons_of_neg (by simp [hp]; omega)]
+    · have e1 : (if (p.1 == id) = true then (id, o) else p) = p := by simp [hp]
+      rw [e1]
+      by_cases hj : j = id
+      · subst hj
+        rw [List.find?_cons_of_neg (by simp [hp]), ih]
+        simp only [if_true]
+        rw [List.find?_cons_of_neg (by simp [hp])]
+      · simp only [hj, if_false] at ih ⊢
+        by_cases hpj : p.1 = j
+        · rw [List.find?_cons_of_pos (by simp [hpj]), List.find?_cons_of_pos (by simp [hpj])]
+        · rw [List.find?_cons_of_neg (by simp [hpj]), List.find?_cons_of_neg (by simp [hpj]), ih]
+
+/-- `setH` changes object `id` (when it exists) and no other -/
+theorem get_setH (a : Heap) (id j : Nat) (o : HObj) :
+    (setH a id o).get? j = if j = id then (a.get? id).map (fun _ => o) else a.get? j := by
+  cases a with
+  | mk objs next =>
+    simp only [setH, Heap.get?, find_map_set]
+    by_cases hj : j = id
+    · simp only [hj, if_true]
+      cases objs.find? (fun p => p.1 == id) <;> simp
+    · simp [hj]
+
+theorem getArr_setH_self (a : Heap) (id : Nat) (xs : List Val) (h : ∃ o, a.get? id = some o) :
+    (setH a id (.arr xs)).getArr id = xs := by
+  obtain ⟨o, ho⟩ := h
+  simp [Heap.getArr, get_setH, ho]
+
+theorem getArr_setH_other (a : Heap) (id j : Nat) (o : HObj) (h : j ≠ id) : (setH a id o).getArr j = a.getArr j := by
+  simp [Heap.getArr, get_setH, h]
+
+theorem getMap_setH_self (a : Heap) (id : Nat) (kvs : List (Val × Val)) (h : ∃ o, a.get? id = some o) :
+    (setH a id (.map kvs)).getMap id = kvs := by
+  obtain ⟨o, ho⟩ := h
+  simp [Heap.getMap, get_setH, ho]
+
+theorem exists_of_getArr_ne_nil {a : Heap} {id : Nat} (h : a.getArr id ≠ []) : ∃ o, a.get? id = some o := by
+  unfold Heap.getArr at h
+  cases hg : a.get? id with
+  | none => simp [hg] at h
+  | some o => exact ⟨o, rfl⟩
+
+/-- a new object: its id is the allocation counter; every existing object is as it was -/
+theorem get_allocH (a : Heap) (o : HObj) (j : Nat) :
+    (allocH a o).2 = a.next ∧ (allocH a o).1.next = a.next + 1 ∧
+    (allocH a o).1.get? j = if j = a.next then some o else a.get? j := by
+  cases a with
+  | mk objs next =>
+    refine ⟨rfl, rfl, ?_⟩
+    simp only [allocH, Heap.get?]
+    by_cases hj : j = next
+    · subst hj
+      rw [List.find?_cons_of_pos (by simp)]
+      simp
+    · rw [List.find?_cons_of_neg (by simp; omega)]
+      simp [hj]
+
+theorem get_fresh {a : Heap} (hwf : WF a) : a.get? a.next = none := by
+  unfold Heap.get?
+  cases hf : a.objs.find? (fun p => p.1 == a.next) with
+  | none => rfl
+  | some p =>
+    have hm := List.mem_of_find?_eq_some hf
+    have hp := List.find?_some hf
+    have := hwf p hm
+    simp only [beq_iff_eq] at hp
+    omega
+
+theorem wf_allocH {a : Heap} (hwf : WF a) (o : HObj) : WF (allocH a o).1 := by
+  cases a with
+  | mk objs next =>
+    intro p hp
+    simp only [allocH, List.mem_cons] at hp
+    rcases hp with rfl | hp
+    · show next < next + 1
+      omega
+    · have := hwf p hp
+      show p.1 < next + 1
+      have : p.1 < next := this
+      omega
+
+theorem wf_setH {a : Heap} (hwf : WF a) (id : Nat) (o : HObj) (hid : id < a.next) : WF (setH a id o) := by
+  cases a with
+  | mk objs next =>
+    intro p hp
+    simp only [setH, List.mem_map] at hp
+    obtain ⟨q, hq, rfl⟩ := hp
+    by_cases h : q.1 = id
+    · simp [h]; exact hid
+    · simp [h]; exact hwf q hq
+
+
+/-! ### index reads that are runtime errors -/
+
+/-- **`index_errors`** (the reading function): an index below zero, an index at or beyond the
+length, a key that is absent (or whose value is `null`), a key of an invalid kind, an array
+indexed by something that is not an integer, a value that is neither an array nor a map — each
+of these reads is a runtime error, not a value -/
+theorem index_errors (a : Heap) :
+    (∀ id xs (i : Int64), i < 0 → getIndexH a (.arr id xs) (.int i) = none) ∧
+    (∀ id xs (i : Int64), (a.getArr id).length ≤ i.toNatClampNeg → getIndexH a (.arr id xs) (.int i) = none) ∧
+    (∀ id kvs k, lookupKV a k (a.getMap id) = none → getIndexH a (.map id kvs) k = none) ∧
+    (∀ id kvs k, lookupKV a k (a.getMap id) = some .null → getIndexH a (.map id kvs) k = none) ∧
+    (∀ id kvs k, k.isValidKey = false → getIndexH a (.map id kvs) k = none) ∧
+    (∀ id xs i, (∀ n, i ≠ .int n) → getIndexH a (.arr id xs) i = none) ∧
+    (∀ c i, (∀ id xs, c ≠ .arr id xs) → (∀ id kvs, c ≠ .map id kvs) → getIndexH a c i = none) := by
+  refine ⟨?_, ?_, ?_, ?_, ?_, ?_, ?_⟩
+  · intro id xs i hi; simp [getIndexH, hi]
+  · intro id xs i hi
+    simp only [getIndexH]
+    split
+    · rfl
+    · exact List.getElem?_eq_none hi
+  · intro id kvs k hk; simp only [getIndexH, hk]; split <;> rfl
+  · intro id kvs k hk; simp only [getIndexH, hk, isNullV]; split <;> rfl
+  · intro id kvs k hk; simp [getIndexH, hk]
+  · intro id xs i hi
+    cases i <;> first | rfl | (exact absurd rfl (hi _))
+  · intro c i h1 h2
+    cases c <;> first | rfl | (exact absurd rfl (h1 _ _)) | (exact absurd rfl (h2 _ _))
+
+/-- … in the reference evaluation: when the container and the index evaluate to such a pair, the
+index expression has no value — and (`index_errors_machine`) the machine is stuck at the `GetIndex` -/
+theorem index_errors_eval {Φ : FnDef → Option FDecl} (fuel : Nat) (cx : Option (FnDef × Nat)) (σ σ1 σ2 : Sto) (l : Nat) (c i : FExpr) (vc vi : Val)
+    (hc : evalE Φ fuel cx σ c = some (vc, σ1)) (hi : evalE Φ fuel cx σ1 i = some (vi, σ2)) (hg : getIndexH σ2.a vc vi = none) :
+    evalE Φ (fuel + 1) cx σ (.index l c i) = none := by
+  simp [evalE, hc, hi, hg]
+
+theorem index_errors_machine {K : List Val} {F : FnDef → Option (List Instr)} {X : Ctxt} {pc : Nat} {c i : Val} {ops : List Val} {σ : Sto}
+    (h : codeAt X.code pc [Instr.getIndex]) (hv : getIndexH σ.a c i = none) :
+    fstep K F (X.st pc (i :: c :: ops) σ) = none := by
+  unfold fstep Ctxt.st Ctxt.at
+  simp only [fetch_codeAt h, List.cons_append, hv]
+
+/-! ### an index assignment changes the OBJECT: every alias sees it -/
+
+/-- writing element `i` of the array object `id` through ANY reference to it (`.arr id xs`: the
+contents a reference carries are ignored), then reading element `i` through ANY reference to the
+same object, yields the value written; the elements at other indices, and every other object, are
+as before -/
+theorem setIndex_getIndex_arr (a a' : Heap) (id : Nat) (xs ys : List Val) (i : Int64) (v : Val)
+    (h : setIndexH a (.arr id xs) (.int i) v = some a') :
+    getIndexH a' (.arr id ys) (.int i) = some v ∧
+    (∀ (j : Int64), 0 ≤ j → j.toNatClampNeg ≠ i.toNatClampNeg → getIndexH a' (.arr id ys) (.int j) = getIndexH a (.arr id ys) (.int j)) ∧
+    (∀ id', id' ≠ id → a'.get? id' = a.get? id') := by
+  simp only [setIndexH] at h
+  by_cases hneg : i < 0
+  · simp [hneg] at h
+  · simp only [hneg, if_false] at h
+    by_cases hlen : i.toNatClampNeg < (a.getArr id).length
+    · simp only [hlen, if_true, Option.some.injEq] at h
+      subst h
+      have hex : ∃ o, a.get? id = some o := exists_of_getArr_ne_nil (by intro h0; rw [h0] at hlen; simp at hlen)
+      refine ⟨?_, ?_, ?_⟩
+      · simp [getIndexH, hneg, getArr_setH_self _ _ _ hex, hlen]
+      · intro j hj hne
+        have hjn : ¬ j < 0 := Int64.not_lt.mpr hj
+        simp only [getIndexH, hjn, if_false, getArr_setH_self _ _ _ hex]
+        exact List.getElem?_set_ne (Ne.symm hne)
+      · intro id' hne
+        simp [get_setH, hne]
+    · simp [hlen] at h
+
+/-- the three statements `let b = a; b[i] = v; let x = a[i];` (`a`, `b`, `x` the globals `ga`, `gb`,
+`gx`) where `a` holds a reference to the array object `id` and `i` is inside it -/
+def aliasProg (l ga gb gx : Nat) (i : Int64) (v : Val) : List FStmt :=
+  [.letG l gb (.gget l ga),
+   .expr l (.setIndex l (.gget l gb) (.lit l (.int i)) (.lit l v)),
+   .letG l gx (.index l (.gget l ga) (.lit l (.int i)))]
+
+/-- **`index_assignment_aliases`** (reference evaluation): after `let b = a; b[i] = v;` reading
+`a[i]` yields `v` — `x` ends up holding `v`, `b` holds the same reference as `a`, and the only
+object that changed is the one both refer to -/
+theorem index_assignment_aliases {Φ : FnDef → Option FDecl} (fuel : Nat) (cx : Option (FnDef × Nat)) (lo g : List Val) (h : List (List Val)) (a : Heap)
+    (l ga gb gx id : Nat) (xs : List Val) (i : Int64) (v : Val)
+    (hga : g[ga]? = some (.arr id xs)) (hgb : gb < g.length) (hgx : gx < g.length) (hab : ga ≠ gb)
+    (hi0 : ¬ i < 0) (hi : i.toNatClampNeg < (a.getArr id).length) :
+    evalP Φ (fuel + 6) cx ⟨lo, g, h, a⟩ (aliasProg l ga gb gx i v) =
+      some (⟨lo, (g.set gb (.arr id xs)).set gx v, h, setH a id (.arr ((a.getArr id).set i.toNatClampNeg v))⟩, .normal, .null) := by
+  have hga' : g.getD ga .null = .arr id xs := by simp [List.getD, hga]
+  have hex : ∃ o, a.get? id = some o := exists_of_getArr_ne_nil (by intro h0; rw [h0] at hi; simp at hi)
+  have hgb2 : (g.set gb (.arr id xs)).getD gb .null = .arr id xs := by simp [List.getD, hgb]
+  have hga2 : (g.set gb (.arr id xs)).getD ga .null = .arr id xs := by
+    simp [List.getD, List.getElem?_set_ne (Ne.symm hab), hga]
+  simp only [aliasProg, Fn.evalP, Fn.evalS, Fn.evalE, hga', hgb, if_true, List.length_set, hgb2, hga2, setIndexH, hi0, hi, if_false,
+    Sto.setA_eq, Sto.gset_eq, getIndexH, getArr_setH_self _ _ _ hex, List.length_set, List.getElem?_set_self hi, hgx]
+
+
+/-- the same, for the three statements as a compiled program on the machine (`program_correct_fn`):
+from the empty stack to the empty stack, `x` holds `v`, the object `id` has `v` at index `i` -/
+theorem index_assignment_aliases_machine (fuel : Nat) (g : List Val) (h : List (List Val)) (a : Heap)
+    (l ga gb gx id : Nat) (xs : List Val) (i : Int64) (v : Val)
+    (hga : g[ga]? = some (.arr id xs)) (hgb : gb < g.length) (hgx : gx < g.length) (hab : ga ≠ gb)
+    (hi0 : ¬ i < 0) (hi : i.toNatClampNeg < (a.getArr id).length) :
+    FSteps (constsT ((aliasProg l ga gb gx i v).map FTop.stmt)) (codeT ((aliasProg l ga gb gx i v).map FTop.stmt))
+      ⟨⟨compileT 0 0 ((aliasProg l ga gb gx i v).map FTop.stmt), ⟨[], [], 0, 0, 0⟩, 0, 0, 0⟩, [], g, h, a, []⟩
+      ⟨⟨compileT 0 0 ((aliasProg l ga gb gx i v).map FTop.stmt), ⟨[], [], 0, 0, 0⟩, 0,
+          bytes (compileT 0 0 ((aliasProg l ga gb gx i v).map FTop.stmt)), 0⟩, [],
+        (g.set gb (.arr id xs)).set gx v, h, setH a id (.arr ((a.getArr id).set i.toNatClampNeg v)), []⟩ := by
+  apply program_correct_fn (fuel + 5)
+  have hga' : g.getD ga .null = .arr id xs := by simp [List.getD, hga]
+  have hex : ∃ o, a.get? id = some o := exists_of_getArr_ne_nil (by intro h0; rw [h0] at hi; simp at hi)
+  have hgb2 : (g.set gb (.arr id xs)).getD gb .null = .arr id xs := by simp [List.getD, hgb]
+  have hga2 : (g.set gb (.arr id xs)).getD ga .null = .arr id xs := by
+    simp [List.getD, List.getElem?_set_ne (Ne.symm hab), hga]
+  simp only [aliasProg, List.map_cons, List.map_nil, evalT, Fn.evalS, Fn.evalE, hga', hgb, if_true, List.length_set, hgb2, hga2, setIndexH, hi0, hi,
+    if_false, Sto.setA_eq, Sto.gset_eq, getIndexH, getArr_setH_self _ _ _ hex, List.getElem?_set_self hi, hgx]
+
+/-! ### a literal is a NEW object -/
+
+/-- **`array_literal_fresh`**: `[e1, …, en]` evaluates its elements left to right (`evalArgs`) and
+then creates a NEW object: its id is the allocation counter — no object has it (in a well-formed
+heap), so no existing reference denotes it —, it holds exactly the element values, every existing
+object is untouched, locals / globals / closure objects are those after the elements.  Evaluated
+again (a function called twice, a loop) the literal creates another object: the counter moved. -/
+theorem array_literal_fresh {Φ : FnDef → Option FDecl} (fuel : Nat) (cx : Option (FnDef × Nat)) (σ σ' : Sto) (l : Nat) (es : FArgs) (v : Val)
+    (he : evalE Φ (fuel + 1) cx σ (.arrLit l es) = some (v, σ')) :
+    ∃ vs σ1, evalArgs Φ fuel cx σ es = some (vs, σ1) ∧ v = .arr σ1.a.next [] ∧
+      σ'.l = σ1.l ∧ σ'.g = σ1.g ∧ σ'.h = σ1.h ∧
+      σ'.a.getArr σ1.a.next = vs ∧ σ'.a.next = σ1.a.next + 1 ∧
+      (∀ j, j ≠ σ1.a.next → σ'.a.get? j = σ1.a.get? j) ∧
+      (WF σ1.a → σ1.a.get? σ1.a.next = none ∧ WF σ'.a) := by
+  simp only [Fn.evalE] at he
+  cases hea : evalArgs Φ fuel cx σ es with
+  | none => simp [hea] at he
+  | some r =>
+    obtain ⟨vs, σ1⟩ := r
+    simp only [hea, mkArr, Sto.setA_eq, Option.some.injEq, Prod.mk.injEq] at he
+    obtain ⟨rfl, rfl⟩ := he
+    obtain ⟨e1, e2, _⟩ := get_allocH σ1.a (.arr vs) 0
+    refine ⟨vs, σ1, rfl, by rw [e1], rfl, rfl, rfl, ?_, e2, ?_, ?_⟩
+    · simp [Heap.getArr, (get_allocH σ1.a (.arr vs) _).2.2, e1]
+    · intro j hj
+      simp [(get_allocH σ1.a (.arr vs) j).2.2, hj]
+    · intro hwf
+      exact ⟨get_fresh hwf, wf_allocH hwf _⟩
+
+/-! ### a map literal: pairs in order, a later pair with an equal key wins -/
+
+def flatPairs : List (Val × Val) → List Val
+  | [] => []
+  | (k, v) :: rest => k :: v :: flatPairs rest
+
+theorem buildMap_flat (a : Heap) : ∀ (ps : List (Val × Val)) (acc : List (Val × Val)), (∀ p ∈ ps, p.1.isValidKey = true) →
+    buildMap a (flatPairs ps) acc = some (ps.foldl (fun m p => insertKV a p.1 p.2 m) acc)
+  | [], acc, _ => by simp [flatPairs, buildMap]
+  | (k, v) :: rest, acc, h => by
+    have hk : k.isValidKey = true := h (k, v) (by simp)
+    simp only [flatPairs, buildMap, hk, if_true, List.foldl_cons]
+    exact buildMap_flat a rest _ (fun p hp => h p (List.mem_cons_of_mem _ hp))
+
+/-- a key that was just inserted is found, with the inserted value (whatever the map held before) -/
+theorem lookup_insertKV_self (a : Heap) (k v : Val) (hk : HMap.keyMatch (view a k) (view a k) = true) :
+    ∀ kvs, lookupKV a k (insertKV a k v kvs) = some v
+  | [] => by simp [insertKV, lookupKV, hk]
+  | (k0, v0) :: rest => by
+    by_cases hm : HMap.keyMatch (view a k) (view a k0) = true
+    · simp [insertKV, lookupKV, hm]
+    · simp only [insertKV, hm, Bool.false_eq_true, if_false, lookupKV]
+      exact lookup_insertKV_self a k v hk rest
+
+/-- … and an insertion replaces the VALUE of the first entry with an equal key, keeping that entry's key and place -/
+theorem insertKV_equal_key (a : Heap) (k0 v0 k v : Val) (rest : List (Val × Val)) (hm : HMap.keyMatch (view a k) (view a k0) = true) :
+    insertKV a k v ((k0, v0) :: rest) = (k0, v) :: rest := by
+  simp [insertKV, hm]
+
+/-- **`map_literal_last_pair_wins`**: in `map {…, k: v}` — whatever pairs precede the last one, with
+keys equal to `k` or not — the map built holds `v` for `k`: it is a NEW object (id = the
+allocation counter), its entries are the pairs inserted in order, and looking `k` up in them
+yields the value of the LAST pair.  (`k == k` must hold: a NaN key is never found.)  For two
+pairs with equal keys the map has ONE entry: the first pair's key with the second pair's value. -/
+theorem map_literal_last_pair_wins (a : Heap) (ps : List (Val × Val)) (k v : Val)
+    (hps : ∀ p ∈ ps, p.1.isValidKey = true) (hkv : k.isValidKey = true) (hk : HMap.keyMatch (view a k) (view a k) = true) :
+    ∃ kvs a', mkMap a (flatPairs (ps ++ [(k, v)])) = some (.map a.next [], a') ∧ a'.getMap a.next = kvs ∧
+      lookupKV a k kvs = some v ∧ (∀ j, j ≠ a.next → a'.get? j = a.get? j) ∧
+      (∀ k0 v0, ps = [(k0, v0)] → HMap.keyMatch (view a k) (view a k0) = true → kvs = [(k0, v)]) := by
+  have hall : ∀ p ∈ ps ++ [(k, v)], p.1.isValidKey = true := by
+    intro p hp
+    rcases List.mem_append.mp hp with hp | hp
+    · exact hps p hp
+    · simp only [List.mem_singleton] at hp; subst hp; exact hkv
+  have hb := buildMap_flat a (ps ++ [(k, v)]) [] hall
+  obtain ⟨e1, _, _⟩ := get_allocH a (.map ((ps ++ [(k, v)]).foldl (fun m p => insertKV a p.1 p.2 m) [])) 0
+  refine ⟨(ps ++ [(k, v)]).foldl (fun m p => insertKV a p.1 p.2 m) [], (allocH a (.map ((ps ++ [(k, v)]).foldl (fun m p => insertKV a p.1 p.2 m) []))).1, ?_, ?_, ?_, ?_, ?_⟩
+  · simp only [mkMap, hb]
+    rw [← e1]
+  · simp [Heap.getMap, (get_allocH a _ _).2.2]
+  · rw [List.foldl_append]
+    exact lookup_insertKV_self a k v hk _
+  · intro j hj
+    simp [(get_allocH a _ j).2.2, hj]
+  · intro k0 v0 hps1 hm
+    subst hps1
+    simp [insertKV, hm]
+
+
+/-! ### non-vacuity (by `rfl`): the reference evaluation and the machine on concrete programs -/
+
+def argsOf : List FExpr → FArgs
+  | [] => .nil
+  | a :: r => .cons a (argsOf r)
+
+def main0 (T : List FTop) (n : Nat) : FSt := ⟨⟨compileT 0 0 T, ⟨[], [], 0, 0, 0⟩, 0, 0, 0⟩, [], List.replicate n .null, [[]], {}, []⟩
+
+/-- the machine's final globals with the containers expanded -/
+def runG (T : List FTop) (n fuel : Nat) : Option (List Val) :=
+  match frun (constsT T) (codeT T) fuel (main0 T n) with
+  | .done s => if s.stk.isEmpty && s.callers.isEmpty then some (s.g.map (view s.a)) else none
+  | _ => none
+
+def refG (T : List FTop) (n fuel : Nat) : Option (List Val) :=
+  match evalT (phiT T) fuel (List.replicate n .null) [[]] {} T with
+  | some (g, _, a) => some (g.map (view a))
+  | none => none
+
+/-- `let a = [1, 2, 3]; let b = a; b[0] = 9; let x = a[0];` — `aliasProg` after the literal -/
+def aliasT : List FTop :=
+  (FStmt.letG 1 0 (.arrLit 1 (argsOf [.lit 1 (.int 1), .lit 1 (.int 2), .lit 1 (.int 3)])) :: aliasProg 2 0 1 2 0 (.int 9)).map .stmt
+
+example : compileT 0 0 aliasT =
+    [.const 0, .const 1, .const 2, .array 3, .defGlobal 0, .getGlobal 0, .defGlobal 1,
+     .const 3, .getGlobal 1, .const 4, .setIndex, .pop, .getGlobal 0, .const 5, .getIndex, .defGlobal 2] := by rfl
+example : refG aliasT 3 20 = some [.arr 1 [.int 9, .int 2, .int 3], .arr 1 [.int 9, .int 2, .int 3], .int 9] := by rfl
+example : runG aliasT 3 100 = some [.arr 1 [.int 9, .int 2, .int 3], .arr 1 [.int 9, .int 2, .int 3], .int 9] := by rfl
+
+/-- `fn lit() { [1, 2] }  let a = lit(); let b = lit(); a[0] = 5; let x = b[0]; let y = a[0];` — the literal
+evaluated twice is two objects (ids 1 and 2): the write through `a` does not show through `b` -/
+def litD : FDecl := ⟨0, 0, [.expr 1 (.arrLit 1 (argsOf [.lit 1 (.int 1), .lit 1 (.int 2)]))], 1⟩
+def freshT : List FTop :=
+  [.fnDef 1 0 [7] [] litD,
+   .stmt (.letG 2 1 (.call 2 (.gget 2 0) .nil)), .stmt (.letG 3 2 (.call 3 (.gget 3 0) .nil)),
+   .stmt (.expr 4 (.setIndex 4 (.gget 4 1) (.lit 4 (.int 0)) (.lit 4 (.int 5)))),
+   .stmt (.letG 5 3 (.index 5 (.gget 5 2) (.lit 5 (.int 0)))), .stmt (.letG 6 4 (.index 6 (.gget 6 1) (.lit 6 (.int 0))))]
+
+example : (refG freshT 5 30).map (·.drop 1) = some [.arr 1 [.int 5, .int 2], .arr 2 [.int 1, .int 2], .int 1, .int 5] := by rfl
+example : (runG freshT 5 200).map (·.drop 1) = some [.arr 1 [.int 5, .int 2], .arr 2 [.int 1, .int 2], .int 1, .int 5] := by rfl
+
+/-- `let m = map {true: 1, false: 0, true: 2}; let x = m[true];` — one entry for `true`, in the first pair's place, with the
+last pair's value (keys that are integers or floats hash through `f64`, opaque to the kernel: the tie runs those) -/
+def mapT : List FTop :=
+  [.stmt (.letG 1 0 (.mapLit 1 (argsOf [.tru 1, .lit 1 (.int 1), .fls 1, .lit 1 (.int 0), .tru 1, .lit 1 (.int 2)]))),
+   .stmt (.letG 2 1 (.index 2 (.gget 2 0) (.tru 2)))]
+
+example : refG mapT 2 20 = some [.map 1 [(.bool true, .int 2), (.bool false, .int 0)], .int 2] := by rfl
+
+/-- failing reads: `[1, 2][2]`, `[1, 2][0 - 1]`, `map {true: 2}[false]`, `map {true: 2}[map {}]`, `5[0]` — no value in the
+reference evaluation; the machine is stuck at the `GetIndex` (the last instruction before the `DefineGlobal`) -/
+def badReads : List (FExpr × FExpr) :=
+  [(.arrLit 1 (argsOf [.lit 1 (.int 1), .lit 1 (.int 2)]), .lit 1 (.int 2)),
+   (.arrLit 1 (argsOf [.lit 1 (.int 1), .lit 1 (.int 2)]), .bin 1 .sub (.lit 1 (.int 0)) (.lit 1 (.int 1))),
+   (.mapLit 1 (argsOf [.tru 1, .lit 1 (.int 2)]), .fls 1),
+   (.mapLit 1 (argsOf [.tru 1, .lit 1 (.int 2)]), .mapLit 1 .nil),
+   (.lit 1 (.int 5), .lit 1 (.int 0))]
+def badT (p : FExpr × FExpr) : List FTop := [.stmt (.letG 1 0 (.index 1 p.1 p.2))]
+
+example : badReads.map (fun p => refG (badT p) 1 20) = [none, none, none, none, none] := by rfl
+example : badReads.map (fun p => match frun (constsT (badT p)) (codeT (badT p)) 100 (main0 (badT p) 1) with
+    | .stuck s => (match fetch s.act.code s.act.pc with | some .getIndex => true | _ => false)
+    | _ => false) = [true, true, true, true, true] := by rfl
+
+/-! ### pure builtins called by name -/
+
+/-- **`builtin_call_correct`**: the call `name(a1, …, an)` of a builtin function (no user binding
+hides the name: the recogniser resolves it to entry `i` of the builtin table) — compiled to
+`GetBuiltinFn i; a1; …; an; Call n` — evaluates the arguments left to right and yields
+`callBuiltinH`: the pure builtin of `Builtins.call` on the views of the argument values; a
+mutating builtin has changed the OBJECT of its first argument (every alias sees it); the machine,
+from any operands `ops`, in any activation, pushes exactly that value and ends with that heap. -/
+theorem builtin_call_correct {Φ : FnDef → Option FDecl} {K : List Val} {F : FnDef → Option (List Instr)} (hL : Linked Φ K F)
+    (fuel : Nat) (l lb i : Nat) (args : FArgs) (X : Ctxt) (pos k : Nat) (ops : List Val) (cx : Option (FnDef × Nat)) (σ σ' : Sto) (v : Val)
+    (h : codeAt X.code pos (compileE pos k (.call l (.bfn lb i) args))) (hp : poolAt K k (constsE (.call l (.bfn lb i) args))) (hx : Agree cx X)
+    (he : evalE Φ (fuel + 2) cx σ (.call l (.bfn lb i) args) = some (v, σ')) :
+    compileE pos k (.call l (.bfn lb i) args) = [.getBuiltin i] ++ compileArgs (pos + 2) k args ++ [.call args.length] ∧
+    (∃ name vs σ1 a', builtinName i = some name ∧ evalArgs Φ (fuel + 1) cx σ args = some (vs, σ1) ∧
+      callBuiltinH σ1.a name vs = some (v, a') ∧ σ' = ⟨σ1.l, σ1.g, σ1.h, a'⟩) ∧
+    FSteps K F (X.st pos ops σ) (X.st (pos + bytes (compileE pos k (.call l (.bfn lb i) args))) (v :: ops) σ') := by
+  refine ⟨by simp [compileE, bytes, Instr.size, constsE], ?_, (sound_all hL (fuel + 2)).E _ X pos k ops cx σ σ' v h hp hx he⟩
+  simp only [Fn.evalE] at he
+  cases hn : builtinName i with
+  | none => simp [hn] at he
+  | some name =>
+    simp only [hn] at he
+    cases hea : evalArgs Φ (fuel + 1) cx σ args with
+    | none => simp [hea] at he
+    | some r =>
+      obtain ⟨vs, σ1⟩ := r
+      simp only [hea] at he
+      cases hc : callBuiltinH σ1.a name vs with
+      | none => simp [hc] at he
+      | some ra =>
+        obtain ⟨r', a'⟩ := ra
+        simp only [hc, Sto.setA_eq, Option.some.injEq, Prod.mk.injEq] at he
+        obtain ⟨rfl, rfl⟩ := he
+        exact ⟨name, vs, σ1, a', rfl, rfl, hc, rfl⟩
+
+/-- `let a = [3]; let b = a; push(b, 9); let n = len(a);` — `len` = entry 0, `push` = entry 5 of the builtin table; the
+`push` through the alias `b` is seen through `a` -/
+def builtinT : List FTop :=
+  [.stmt (.letG 1 0 (.arrLit 1 (argsOf [.lit 1 (.int 3)]))),
+   .stmt (.letG 2 1 (.gget 2 0)),
+   .stmt (.expr 3 (.call 3 (.bfn 3 5) (argsOf [.gget 3 1, .lit 3 (.int 9)]))),
+   .stmt (.letG 4 2 (.call 4 (.bfn 4 0) (argsOf [.gget 4 0])))]
+
+example : [builtinName 0, builtinName 5] = [some "len", some "push"] := by rfl
+example : compileT 0 0 builtinT =
+    [.const 0, .array 1, .defGlobal 0, .getGlobal 0, .defGlobal 1,
+     .getBuiltin 5, .getGlobal 1, .const 1, .call 2, .pop, .getBuiltin 0, .getGlobal 0, .call 1, .defGlobal 2] := by rfl
+example : refG builtinT 3 30 = some [.arr 1 [.int 3, .int 9], .arr 1 [.int 3, .int 9], .int 2] := by rfl
+-- (the machine run of the same program is exercised by the tie: evaluating it inside Lean's elaborator is too costly)
+
+/-- a user binding hides the builtin: `fn h(len) { len + 1 }` reads its parameter; afterwards `len([1])` is the builtin again -/
+example : (ofFnBody 50 [] "h" ["len"] (.mk 1 [.exprS 1 (.binary 1 "+" (.ident 1 "len" .get) (.int 1 1))]) 1).map (fun d => compileFn 0 d)
+    = some [.getLocal 0, .const 0, .op .add, .retv] := by rfl
+example : (ofTops 50 ⟨0, [], []⟩ 0 [.block (.mk 1 [.letS 1 0 "len" (.int 1 7)]), .exprS 2 (.call 2 (.ident 2 "len" .get) [.arr 2 []])]).map
+      (fun r => compileT 0 0 r.1)
+    = some [.const 0, .defGlobal 0, .getBuiltin 0, .array 0, .call 1, .pop] := by rfl
+
+/-! ### the heap stays well-formed: every literal of a program run from the empty heap is fresh -/
+
+/-- `a'` comes from `a` by allocations and updates: well-formedness is kept, the allocation counter never goes back -/
+structure Ext (a a' : Heap) : Prop where
+  wf : WF a → WF a'
+  mono : a.next ≤ a'.next
+
+theorem Ext.refl (a : Heap) : Ext a a := ⟨id, Nat.le_refl _⟩
+theorem Ext.trans {a b c : Heap} (h1 : Ext a b) (h2 : Ext b c) : Ext a c := ⟨fun h => h2.wf (h1.wf h), Nat.le_trans h1.mono h2.mono⟩
+
+theorem ext_allocH (a : Heap) (o : HObj) : Ext a (allocH a o).1 :=
+  ⟨fun h => wf_allocH h o, by rw [(get_allocH a o 0).2.1]; omega⟩
+
+theorem ext_setH (a : Heap) (id : Nat) (o : HObj) : Ext a (setH a id o) := by
+  cases a with
+  | mk objs next =>
+    refine ⟨?_, Nat.le_refl _⟩
+    intro hwf p hp
+    simp only [setH, List.mem_map] at hp
+    obtain ⟨q, hq, rfl⟩ := hp
+    by_cases h : q.1 = id
+    · have := hwf q hq
+      simp [h]; rw [← h]; exact this
+    · simp [h]; exact hwf q hq
+
+mutual
+theorem ext_storeNew : ∀ (v : Val) (a : Heap), Ext a (storeNew a v).2
+  | .arr id xs, a => by
+    unfold storeNew
+    by_cases h : (id != 0) = true
+    · simp only [h, if_true]; exact Ext.refl a
+    · simp only [h, Bool.false_eq_true, if_false]
+      exact (ext_storeList xs a).trans (ext_allocH _ _)
+  | .map id kvs, a => by
+    unfold storeNew
+    by_cases h : (id != 0) = true
+    · simp only [h, if_true]; exact Ext.refl a
+    · simp only [h, Bool.false_eq_true, if_false]
+      exact (ext_storePairs kvs a).trans (ext_allocH _ _)
+  | .null, a | .bool _, a | .int _, a | .float _, a | .char _, a | .byte _, a | .str _, a | .builtin _, a | .func _, a
+  | .clos .., a | .file _, a | .err _, a | .other _, a => by simp [storeNew]; exact Ext.refl a
+theorem ext_storeList : ∀ (vs : List Val) (a : Heap), Ext a (storeList a vs).2
+  | [], a => by simp [storeList]; exact Ext.refl a
+  | v :: rest, a => by
+    unfold storeList
+    exact (ext_storeNew v a).trans (ext_storeList rest _)
+theorem ext_storePairs : ∀ (ps : List (Val × Val)) (a : Heap), Ext a (storePairs a ps).2
+  | [], a => by simp [storePairs]; exact Ext.refl a
+  | (k, v) :: rest, a => by
+    unfold storePairs
+    exact ((ext_storeNew k a).trans (ext_storeNew v _)).trans (ext_storePairs rest _)
+end
+
+
+theorem ext_opH {a a' : Heap} {o : Operator} {l r v : Val} (h : opH a o l r = .new v a') : Ext a a' := by
+  unfold opH at h
+  split at h
+  · simp only [OpOut.new.injEq] at h; rw [← h.2]; exact ext_storeNew _ _
+  · simp only [OpOut.new.injEq] at h; rw [← h.2]; exact ext_storeNew _ _
+  · split at h <;> simp at h
+  · simp at h
+  · simp at h
+
+theorem ext_mkArr {a a' : Heap} {vs : List Val} {v : Val} (h : mkArr a vs = (v, a')) : Ext a a' := by
+  simp only [mkArr, Prod.mk.injEq] at h
+  rw [← h.2]; exact ext_allocH _ _
+
+theorem ext_mkMap {a a' : Heap} {vs : List Val} {v : Val} (h : mkMap a vs = some (v, a')) : Ext a a' := by
+  unfold mkMap at h
+  split at h
+  · simp only [Option.some.injEq, Prod.mk.injEq] at h; rw [← h.2]; exact ext_allocH _ _
+  · simp at h
+
+theorem ext_setIndexH {a a' : Heap} {c i v : Val} (h : setIndexH a c i v = some a') : Ext a a' := by
+  unfold setIndexH at h
+  split at h
+  · split at h
+    · simp at h
+    · split at h
+      · simp only [Option.some.injEq] at h; rw [← h]; exact ext_setH _ _ _
+      · simp at h
+  · split at h
+    · simp only [Option.some.injEq] at h; rw [← h]; exact ext_setH _ _ _
+    · simp at h
+  · simp at h
+
+theorem ext_writeBack (a : Heap) (args : List Val) (nf : Val) : Ext a (writeBack a args nf) := by
+  unfold writeBack
+  split
+  · exact (ext_storeList _ a).trans (ext_setH _ _ _)
+  · exact (ext_storePairs _ a).trans (ext_setH _ _ _)
+  · exact Ext.refl a
+
+theorem ext_callBuiltinH {a a' : Heap} {name : String} {vs : List Val} {v : Val} (h : callBuiltinH a name vs = some (v, a')) : Ext a a' := by
+  unfold callBuiltinH at h
+  split at h
+  · rename_i w _
+    simp only [Option.some.injEq] at h
+    have := ext_storeNew w a
+    rw [h] at this; exact this
+  · rename_i ret nf _
+    split at h
+    · simp only [Option.some.injEq, Prod.mk.injEq] at h; rw [← h.2]; exact ext_writeBack _ _ _
+    · simp only [Option.some.injEq] at h
+      have h2 := ext_storeNew ret (writeBack a vs nf)
+      rw [h] at h2
+      exact (ext_writeBack _ _ _).trans h2
+  · simp at h
+
+
+structure HExt (Φ : FnDef → Option FDecl) (fuel : Nat) : Prop where
+  E : ∀ cx σ e v σ', Fn.evalE Φ fuel cx σ e = some (v, σ') → Ext σ.a σ'.a
+  Arms : ∀ cx σ w a v σ', Fn.evalArms Φ fuel cx σ w a = some (v, σ') → Ext σ.a σ'.a
+  Args : ∀ cx σ a vs σ', Fn.evalArgs Φ fuel cx σ a = some (vs, σ') → Ext σ.a σ'.a
+  S : ∀ cx σ s σ' f bv, Fn.evalS Φ fuel cx σ s = some (σ', f, bv) → Ext σ.a σ'.a
+  P : ∀ cx σ ss σ' f bv, Fn.evalP Φ fuel cx σ ss = some (σ', f, bv) → Ext σ.a σ'.a
+
+theorem hext_succ {Φ : FnDef → Option FDecl} (fuel : Nat) (ih : HExt Φ fuel) : HExt Φ (fuel + 1) := by
+  have hE := ih.E
+  have hA := ih.Arms
+  have hG := ih.Args
+  have hS := ih.S
+  have hP := ih.P
+  have htr := @Ext.trans
+  have hrf := Ext.refl
+  have e1 := @ext_opH
+  have e2 := @ext_mkArr
+  have e3 := @ext_mkMap
+  have e4 := @ext_setIndexH
+  have e5 := @ext_callBuiltinH
+  refine ⟨?_, ?_, ?_, ?_, ?_⟩
+  · intro cx σ e v σ' he
+    cases e with
+    | call l f args =>
+      simp only [Fn.evalE, Sto.setA_eq, Sto.enter_eq, Sto.back_eq] at he
+      cases hef : Fn.evalE Φ fuel cx σ f with
+      | none => simp [hef] at he
+      | some rf =>
+        obtain ⟨vf, σ1⟩ := rf
+        simp only [hef] at he
+        cases hea : Fn.evalArgs Φ fuel cx σ1 args with
+        | none => simp [hea] at he
+        | some ra =>
+          obtain ⟨vs, σ2⟩ := ra
+          simp only [hea] at he
+          have h1 := hE _ _ _ _ _ hef
+          have h2 := hG _ _ _ _ _ hea
+          cases vf with
+          | clos fd fr id =>
+            simp only at he
+            cases hd : Φ fd with
+            | none => simp [hd] at he
+            | some d =>
+              simp only [hd] at he
+              by_cases har : vs.length = d.np
+              · simp only [har, if_true] at he
+                cases hb : Fn.evalP Φ fuel (some (fd, id)) ⟨vs ++ List.replicate (d.nl - d.np) .null, σ2.g, σ2.h, σ2.a⟩ d.body with
+                | none => simp [hb] at he
+                | some rb =>
+                  obtain ⟨σ3, fb, bv⟩ := rb
+                  have h3 := hP _ _ _ _ _ _ hb
+                  simp only [hb] at he
+                  have : σ'.a = σ3.a := by
+                    cases fb <;> simp at he <;> rw [← he.2]
+                  rw [this]
+                  exact (h1.trans h2).trans h3
+              · simp [har] at he
+          | builtin name =>
+            simp only at he
+            cases hr : callBuiltinH σ2.a name vs with
+            | none => simp [hr] at he
+            | some ra =>
+              obtain ⟨r, a'⟩ := ra
+              simp only [hr, Option.some.injEq, Prod.mk.injEq] at he
+              rw [← he.2]
+              exact (h1.trans h2).trans (ext_callBuiltinH hr)
+          | _ => simp at he
+    | setIndex l c i e =>
+      simp only [Fn.evalE, Sto.setA_eq] at he
+      cases h1 : Fn.evalE Φ fuel cx σ e with
+      | none => simp [h1] at he
+      | some r1 =>
+        obtain ⟨v1, σ1⟩ := r1
+        simp only [h1] at he
+        cases h2 : Fn.evalE Φ fuel cx σ1 c with
+        | none => simp [h2] at he
+        | some r2 =>
+          obtain ⟨v2, σ2⟩ := r2
+          simp only [h2] at he
+          cases h3 : Fn.evalE Φ fuel cx σ2 i with
+          | none => simp [h3] at he
+          | some r3 =>
+            obtain ⟨v3, σ3⟩ := r3
+            simp only [h3] at he
+            cases h4 : setIndexH σ3.a v2 v3 v1 with
+            | none => simp [h4] at he
+            | some a' =>
+              simp only [h4, Option.some.injEq, Prod.mk.injEq] at he
+              rw [← he.2]
+              exact (((hE _ _ _ _ _ h1).trans (hE _ _ _ _ _ h2)).trans (hE _ _ _ _ _ h3)).trans (ext_setIndexH h4)
+    | _ => simp only [Fn.evalE, Sto.setA_eq, Sto.gset_eq, Sto.lset_eq, Sto.setH_eq, Sto.pushH_eq, Sto.enter_eq, Sto.back_eq] at he <;> grind
+  · intro cx σ w a v σ' he
+    cases a <;> simp only [Fn.evalArms] at he <;> grind
+  · intro cx σ a vs σ' he
+    cases a <;> simp only [Fn.evalArgs] at he <;> grind
+  · intro cx σ s σ' f bv he
+    cases s <;> simp only [Fn.evalS, Sto.gset_eq, Sto.lset_eq] at he <;> grind
+  · intro cx σ ss σ' f bv he
+    cases ss <;> simp only [Fn.evalP] at he <;> grind
+
+
+/-- **the heap of arrays and maps stays well-formed, its allocation counter never goes back** — along
+every evaluation (expressions, arms, arguments, statements, blocks; calls of closures and of builtins included) -/
+theorem hext_all {Φ : FnDef → Option FDecl} : ∀ fuel, HExt Φ fuel
+  | 0 => ⟨by intro _ _ _ _ _ he; simp [Fn.evalE] at he, by intro _ _ _ _ _ _ he; simp [Fn.evalArms] at he,
+          by intro _ _ _ _ _ he; simp [Fn.evalArgs] at he, by intro _ _ _ _ _ _ he; simp [Fn.evalS] at he,
+          by intro _ _ _ _ _ _ he; simp [Fn.evalP] at he⟩
+  | fuel+1 => hext_succ fuel (hext_all fuel)
+
+/-- **a literal evaluated twice allocates twice**: whatever is evaluated in between (`mid`: any statements — calls, loops,
+other literals, index assignments, mutating builtins), two evaluations of array literals yield references to DIFFERENT
+objects (`id2 > id1`), and — when the heap was well-formed before, as the empty heap of a program's start is — each of them
+was unused when it was allocated -/
+theorem array_literal_twice {Φ : FnDef → Option FDecl} (f1 fm f2 : Nat) (cx : Option (FnDef × Nat)) (σ σ1 σ2 σ3 : Sto)
+    (l1 l2 : Nat) (es1 es2 : FArgs) (mid : List FStmt) (v1 v2 : Val) (fl : FFlow) (bv : Val)
+    (h1 : Fn.evalE Φ (f1 + 1) cx σ (.arrLit l1 es1) = some (v1, σ1))
+    (hm : Fn.evalP Φ fm cx σ1 mid = some (σ2, fl, bv))
+    (h2 : Fn.evalE Φ (f2 + 1) cx σ2 (.arrLit l2 es2) = some (v2, σ3)) :
+    ∃ id1 id2, v1 = .arr id1 [] ∧ v2 = .arr id2 [] ∧ id1 < id2 ∧
+      (WF σ.a → σ1.a.get? id2 = none ∧ WF σ3.a) := by
+  obtain ⟨vs1, τ1, ha1, rfl, _, _, _, _, hn1, _, hw1⟩ := array_literal_fresh f1 cx σ σ1 l1 es1 v1 h1
+  obtain ⟨vs2, τ2, ha2, rfl, _, _, _, _, hn2, _, hw2⟩ := array_literal_fresh f2 cx σ2 σ3 l2 es2 v2 h2
+  have e0 := (hext_all (Φ := Φ) f1).Args _ _ _ _ _ ha1
+  have e1 := (hext_all (Φ := Φ) fm).P _ _ _ _ _ _ hm
+  have e2 := (hext_all (Φ := Φ) f2).Args _ _ _ _ _ ha2
+  have hlt : τ1.a.next < τ2.a.next := by
+    have := Nat.le_trans e1.mono e2.mono
+    omega
+  refine ⟨_, _, rfl, rfl, hlt, ?_⟩
+  intro hwf
+  have hwτ1 : WF τ1.a := e0.wf hwf
+  have hwσ1 : WF σ1.a := (hw1 hwτ1).2
+  have hwτ2 : WF τ2.a := e2.wf (e1.wf hwσ1)
+  refine ⟨?_, (hw2 hwτ2).2⟩
+  -- no object of `σ1.a` has the id of the second literal: all its ids are below its counter
+  unfold Heap.get?
+  cases hf : σ1.a.objs.find? (fun p => p.1 == τ2.a.next) with
+  | none => rfl
+  | some p =>
+    have hm' := List.mem_of_find?_eq_some hf
+    have hp := List.find?_some hf
+    have hb := hwσ1 p hm'
+    simp only [beq_iff_eq] at hp
+    have : σ1.a.next ≤ τ2.a.next := Nat.le_trans e1.mono e2.mono
+    omega
+
+end Containers
 end P2sh.Props.C02
